@@ -310,7 +310,30 @@ def rule_r3(ctx):
                 elif isinstance(n.ast, ast.AugAssign) and isinstance(n.ast.target, ast.Name) and n.ast.target.id == var:
                     parts += _flatten_concat(n.ast.value, {})
         shape = []
+        expanded = []
         for x in parts:
+            # b"%X\r\n" % len(data): a template whose pieces are parts of their own
+            if isinstance(x, ast.BinOp) and isinstance(x.op, ast.Mod) and isinstance(x.left, ast.Constant) and isinstance(x.left.value, bytes) \
+                    and norm(x.right) in ("len(%s)" % data, "(len(%s),)" % data):
+                import re as _re
+                fmt = x.left.value
+                pos = 0
+                okfmt = True
+                for mm in _re.finditer(rb"%(.)", fmt):
+                    if fmt[pos:mm.start()]:
+                        expanded.append(ast.copy_location(ast.Constant(value=fmt[pos:mm.start()]), x))
+                    if mm.group(1) in (b"x", b"X"):
+                        expanded.append(ast.copy_location(ast.Call(func=ast.Name(id="hex", ctx=ast.Load()), args=[x.right], keywords=[]), x))
+                    else:
+                        okfmt = False
+                    pos = mm.end()
+                if fmt[pos:]:
+                    expanded.append(ast.copy_location(ast.Constant(value=fmt[pos:]), x))
+                if not okfmt or len(_re.findall(rb"%[xX]", fmt)) != 1:
+                    expanded.append(x)
+            else:
+                expanded.append(x)
+        for x in expanded:
             t = norm(x)
             if isinstance(x, ast.Constant) and x.value == b"\r\n":
                 shape.append("CRLF")
